@@ -5,6 +5,8 @@ package main
 import (
 	"fmt"
 	"strings"
+
+	cli "github.com/jawher/mow.cli"
 )
 
 // C04: sub-command routing runs exactly the addressed command with its own bindings.
@@ -134,6 +136,22 @@ func routeCase(c *Ctx, si int, shape *tnode, assign []int, args []string) {
 		if !ok {
 			c.Violation("C04", key, cs(), fmt.Sprintf("level %s holds its own tokens: %s", n.path(), strings.Join(r.binds[i], " / ")), "holds "+got)
 			return
+		}
+	}
+	// the tree may grow between two runs of the same instance: a command declared on the root after a first
+	// (root-level) run must be seen by the next run
+	if r.target == shape && shape.kid("late") == nil {
+		lateRan, lateX := 0, ""
+		app.Command("late lt", "declared after the first run", func(sub *cli.Cmd) {
+			x := sub.StringArg("X", "", "")
+			sub.Action = func() { lateRan++; lateX = *x }
+		})
+		tr.calls = nil
+		args2 := append(append([]string{}, args...), "lt", "val")
+		o2 := runIsolated(func() error { return app.Run(append([]string{"app"}, args2...)) })
+		c.Count("second_runs_with_late_command", 1)
+		if !(o2.Returned && o2.Err == nil && lateRan == 1 && lateX == "val" && len(tr.calls) == 0) {
+			c.Violation("C04", key+" then Command(\"late lt\") and a second Run with "+fmt.Sprintf("%q", args2), cs(), "the command declared after the first run is addressed: its Action runs once with X=val, no other Action", fmt.Sprintf("late ran %d times X=%q other calls=%v err=%v panicked=%v", lateRan, lateX, tr.calls, o2.Err, o2.Panicked))
 		}
 	}
 	if c.WantSample(fmt.Sprintf("depth%d", len(r.levels)-1)) && len(args) >= 3 {
